@@ -35,10 +35,35 @@ def _guard_kind(test_txt, body_txt):
     return None
 
 
+def check_aminusb_predicate(ctx, rid):
+    """The conversion to unrestricted orbitals may be skipped only in the documented nothing-to-do cases."""
+    prog = ctx.prog
+    pa = prog.func("iodata.prepare.prepare_unrestricted_aminusb")
+    pm = prog.parents(pa)
+    p0 = pa.posparams[0]
+    allowed = {f"{p0}.mo.kind == 'unrestricted'", f"{p0}.mo.occs_aminusb is None"}
+    n = 0
+    for r in [x for x in pa.own_nodes() if isinstance(x, ast.Return) and isinstance(x.value, ast.Name) and x.value.id == p0]:
+        par = pm.get(id(r))
+        n += 1
+        if not isinstance(par, ast.If) or r not in par.body:
+            ctx.violate(rid, "prepare_unrestricted_aminusb returns the unconverted object outside a nothing-to-do test", pa, r)
+            continue
+        disj = par.test.values if isinstance(par.test, ast.BoolOp) and isinstance(par.test.op, ast.Or) else [par.test]
+        bad = [d for d in disj if " ".join(src_of(d).split()).replace('"', "'") not in allowed]
+        if bad:
+            ctx.violate(rid, f"prepare_unrestricted_aminusb skips the conversion under `{src_of(bad[0])}`, which is not a documented nothing-to-do case ({sorted(allowed)}): restricted orbitals with explicit alpha-minus-beta occupations are written as plain restricted orbitals", pa, par.test)
+        else:
+            ctx.ok(rid, f"conversion skipped only when `{src_of(par.test)}`", f"{pa.module.relpath}:{par.lineno}")
+    if n == 0:
+        ctx.violate(rid, "prepare_unrestricted_aminusb has no identity return", pa, pa.node, construct="identity return")
+
+
 def check_guard_matrix(ctx, rid):
     prog = ctx.prog
     pa = prog.func("iodata.prepare.prepare_unrestricted_aminusb")
     ps = prog.func("iodata.prepare.prepare_segmented")
+    check_aminusb_predicate(ctx, rid)
     for short, want in MATRIX.items():
         g = prog.format_op(short, "prepare_dump")
         if g is None:
